@@ -18,7 +18,7 @@ def _climate(cls_name, data, **kw):
 def run_case(c):
     from pyunicorn.funcnet import CouplingAnalysis
     from pyunicorn.funcnet.coupling_analysis_pure_python import CouplingAnalysisPurePython
-    data = np.array(c["data"], dtype=float)
+    data = enc.represent(c["data"], c["case"])[0]
     T, N = data.shape
     tm = c["taumax"]
     rec = dict(c)
